@@ -64,7 +64,7 @@ PROPS = {
                 streams=[('w1', 'S11', 40, 70), ('w2', 'S11', 20, 70)],
                 configs=['dbg', 'rel'], need=['clone', 'switch']),
     'C14': dict(title='Handle conversions are lossless, type-faithful and consistent with Eq/Hash',
-                coq=['props/C14.vo'], tags=[14],
+                coq=['props/C14.vo'], fill=True, tags=[14],
                 streams=[('w1', 'H1', 40, 60), ('w2', 'H1', 40, 60)],
                 configs=['dbg', 'rel'], need=['conv']),
 }
